@@ -313,7 +313,8 @@ fn gen_valid(rng: &mut Rng, with_global: bool) -> DocG {
       let mut pool: Vec<String> = vars.clone();
       pool.extend(ts.iter().map(|t| t.key.clone()));
       let src = rng.pick(&pool).clone();
-      let sig = if src == "ARGS" { "$$$" } else { "$" };
+      // `$$X` (a capture that may be an unnamed node) is the variable X too
+      let sig = if src == "ARGS" { "$$$" } else if rng.chance(1, 6) { "$$" } else { "$" };
       let rewriters = if !rws.is_empty() && rng.chance(1, 2) { Some(vec![rws[rng.below(rws.len())].0.clone()]) } else { None };
       ts.push(TransG { key: format!("T{i}"), source: format!("{sig}{src}"), rewriters, start: Some(rng.below(2)), end: None });
     }
